@@ -53,6 +53,17 @@ def variants(sc, b):
             # another thread is in the middle of a send (holds the write lock) when the consumer abandons: the library
             # has to wait for it, not skip the close
             out.append((mech + '-contended', dict(copy.deepcopy(sc2), contended_lock=True)))
+        if mech == 'break' and sessprop.sampled(sc2, b, 3):
+            # the application keeps the abandoned iterator alive, calls connect() again on the same object and only then drops the old
+            # iterator (while the new connection is running): the old loop must still close ITS socket and selector
+            sc3 = copy.deepcopy(sc2)
+            for k, calls in sc3['react'].items():
+                for c in calls:
+                    if c[0] == 'abandon':
+                        c[1] = 'keep'
+            sc3['conns'] = sc3['conns'] + [{"stream": [{"t": "http", "v": "ok"}], "steps": [{"kind": "data", "items": 1}, {"kind": "eof"}]}]
+            sc3['nconnect'] = 2
+            out.append(('keep-and-reconnect', sc3))
     return out
 
 
